@@ -152,6 +152,11 @@ func newC15Gen(w *c15World, r *rand.Rand, trigger bool) *c15Gen {
 		for j := 0; j < 2+r.Intn(3); j++ {
 			pool = append(pool, fmt.Sprintf("10.0.%d.%d:8080", p, j+1))
 		}
+		if r.Intn(3) == 0 {
+			// a publisher may publish the empty string; it is a value like any other (and it is
+			// the zero value a map lookup yields for an absent key)
+			pool[r.Intn(len(pool))] = ""
+		}
 		g.pools = append(g.pools, pool)
 	}
 	if trigger {
